@@ -38,7 +38,7 @@ def load_facts(prog, facts_dir, ctx, uni):
                 d = prog.rels[s.rel]
                 if s.dirs.get("IO", "file") != "file":
                     raise Unsupported("input IO " + s.dirs.get("IO"))
-                fn = s.dirs.get("filename") or (s.rel + ".facts")
+                fn = s.dirs.get("filename") or (s.dirs.get("name", s.rel) + ".facts")
                 path = fn if os.path.isabs(fn) else os.path.join(facts_dir, fn)
                 delim = s.dirs.get("delimiter", "\t").replace("\\t", "\t")
                 r = sym.Rel(s.rel, d.arity, d.types, uni)
